@@ -102,8 +102,8 @@ func Harness_C19_arith() {
 	// Rebalance only runs when enabled (server.go: Threshold != 0); NaN settings are outside the claim
 	v.Assume(v.And(rc.Threshold == rc.Threshold, rc.ShedRate == rc.ShedRate))
 	v.Assume(rc.Threshold != 0)
-	s := &Server{sessions: map[*yamux.Session]struct{}{}, cluster: cs, logger: log.NewNopLogger()}
-	s.config.Rebalance = rc
+	// (the real constructor: the configuration reaches Rebalance the way it does in the server)
+	s := NewServer(nil, nil, nil, cs, config.UpstreamConfig{Rebalance: rc}, log.NewNopLogger())
 
 	avg := total / active // the oracle: average over ACTIVE nodes, to whole connections
 	v.Assert("C19/avg-matches-oracle", cs.AvgConns() == avg)
